@@ -65,6 +65,12 @@ func main() {
 	p := &g.A
 	*p = 1
 	fmt.Println(g.A, g.In.Y, g.Ar[0])
+	var l T
+	func() {
+		l.In.Y = 7
+		l.Ar[1]++
+	}()
+	fmt.Println(l.In.Y, l.Ar[1])
 }
 `},
 	})
